@@ -201,7 +201,7 @@ func main() {
 	f := gen.ParseFlags()
 	w := gen.NewWriter(f.Out)
 	defer w.Close()
-	bin := gen.BuildIndexserver()
+	bin := gen.BuildIndexserver("c31")
 	var procs []*gen.LineProc
 	for _, p := range []string{"", "1", "2", "4"} {
 		env := []string{"ZOEKT_VERIF_DRIVER=c31"}
